@@ -20,7 +20,7 @@ theorem bip143_eq_spec (sc : Bytes) (tx : Tx) (i : Nat) (ht : Nat) (amount : Int
   have hget : tx.vin[i]? = some tx.vin[i] := List.getElem?_eq_getElem hi
   refine ⟨Crypto.hash256 (bip143Preimage sc tx i tx.vin[i] ht amount), ?_, ?_⟩
   · simp [bip143Sighash, hget]
-  · exact bip143_eq sc tx i _ ht amount hwf hget hsc (by omega) ha.2 (by omega)
+  · exact bip143_eq sc tx i _ ht amount hwf hget hsc (by omega) ha.2 (htRel_cast ht) (packI_ht (by omega))
 
 /-- the same under the wire-format well-formedness predicate of C01 -/
 theorem bip143_eq_spec_wf (sc : Bytes) (tx : Tx) (i : Nat) (ht : Nat) (amount : Int)
@@ -41,7 +41,7 @@ theorem bip143_defined (sc : Bytes) (tx : Tx) (i : Nat) (ht : Nat) (amount : Int
     (ha : -(2 ^ 63 : Int) ≤ amount ∧ amount < 2 ^ 63) (hht : ht < 2 ^ 31) :
     ∃ d, signatureHashWitnessV0 sc tx i (ht : Int) (some amount) = .ok d := by
   have hget : tx.vin[i]? = some tx.vin[i] := List.getElem?_eq_getElem hi
-  exact ⟨_, bip143_eq sc tx i _ ht amount hwf hget hsc ha.1 ha.2 hht⟩
+  exact ⟨_, bip143_eq sc tx i _ ht amount hwf hget hsc ha.1 ha.2 (htRel_cast ht) (packI_ht hht)⟩
 
 /-- … stated as "the stray-exception branches are unreachable" -/
 theorem bip143_no_pyexc (sc : Bytes) (tx : Tx) (i : Nat) (ht : Nat) (amount : Int)
@@ -51,13 +51,64 @@ theorem bip143_no_pyexc (sc : Bytes) (tx : Tx) (i : Nat) (ht : Nat) (amount : In
   obtain ⟨d, h⟩ := bip143_defined sc tx i ht amount hwf hi hsc ha hht
   rw [h]; intro he; cases he
 
+/-- Python ints as hash type, negative ones included: for every `h` in the int32 range the digest is
+    the BIP143 digest for the two's-complement reading `h mod 2^32`. -/
+theorem bip143_eq_spec_int (sc : Bytes) (tx : Tx) (i : Nat) (h : Int) (amount : Int)
+    (hwf : FieldsWF tx) (hi : i < tx.vin.length) (hsc : sc.length < 2 ^ 64)
+    (ha : -(2 ^ 63 : Int) ≤ amount ∧ amount < 2 ^ 63) (h1 : -(2 ^ 31 : Int) ≤ h) (h2 : h < 2 ^ 31) :
+    ∃ d, bip143Sighash sc tx i (h % 4294967296).toNat amount = some d ∧
+         signatureHashWitnessV0 sc tx i h (some amount) = .ok d := by
+  have hget : tx.vin[i]? = some tx.vin[i] := List.getElem?_eq_getElem hi
+  refine ⟨Crypto.hash256 (bip143Preimage sc tx i tx.vin[i] (h % 4294967296).toNat amount), ?_, ?_⟩
+  · simp [bip143Sighash, hget]
+  · exact bip143_eq sc tx i _ _ amount hwf hget hsc ha.1 ha.2 (htRel_int32 h) (packI_int32 h1 h2)
+
+/-- The BIP143 digest depends on the transaction only through the committed fields: version, the
+    inputs' outpoints and sequence numbers, the outputs and the lock time.  Two transactions that
+    differ only in scriptSigs and / or witness data have the same digest (for every input, script
+    code, amount and hash type). -/
+theorem bip143_ignores_scriptSig_witness (sc : Bytes) (t t' : Tx) (i ht : Nat) (amount : Int)
+    (hv : t'.nVersion = t.nVersion)
+    (hin : t'.vin.map (fun x => (x.prevout, x.nSequence)) = t.vin.map (fun x => (x.prevout, x.nSequence)))
+    (hout : t'.vout = t.vout) (hl : t'.nLockTime = t.nLockTime) :
+    bip143Sighash sc t' i ht amount = bip143Sighash sc t i ht amount := by
+  have hp : t'.vin.map (fun x => Spec.Wire.outPoint x.prevout) = t.vin.map (fun x => Spec.Wire.outPoint x.prevout) := by
+    have := congrArg (List.map (fun p : OutPoint × Nat => Spec.Wire.outPoint p.1)) hin
+    rw [List.map_map, List.map_map] at this
+    exact this
+  have hs : t'.vin.map (fun x => leBytes 4 x.nSequence) = t.vin.map (fun x => leBytes 4 x.nSequence) := by
+    have := congrArg (List.map (fun p : OutPoint × Nat => leBytes 4 p.2)) hin
+    rw [List.map_map, List.map_map] at this
+    exact this
+  have hi : (t'.vin[i]?).map (fun x => (x.prevout, x.nSequence)) = (t.vin[i]?).map (fun x => (x.prevout, x.nSequence)) := by
+    rw [← List.getElem?_map, ← List.getElem?_map, hin]
+  unfold bip143Sighash
+  cases h' : t'.vin[i]? with
+  | none =>
+    rw [h'] at hi
+    cases h0 : t.vin[i]? with
+    | none => simp only [Option.map_none]
+    | some x => rw [h0] at hi; simp at hi
+  | some x' =>
+    rw [h'] at hi
+    cases h0 : t.vin[i]? with
+    | none => rw [h0] at hi; simp at hi
+    | some x =>
+      rw [h0] at hi
+      simp only [Option.map_some, Option.some.injEq, Prod.mk.injEq] at hi
+      obtain ⟨hpo, hsq⟩ := hi
+      have hpre : bip143Preimage sc t' i x' ht amount = bip143Preimage sc t i x ht amount := by
+        unfold bip143Preimage hashPrevouts hashSequence hashOutputs
+        rw [hv, hp, hs, hout, hl, hpo, hsq]
+      simp only [Option.map_some, hpre]
+
 /-- a non-existing input index is the only failure on in-range data: IndexError (`txTo.vin[inIdx]`) -/
 theorem bip143_index_error (sc : Bytes) (tx : Tx) (i : Nat) (ht : Nat) (amount : Option Int)
     (hwf : FieldsWF tx) (hi : tx.vin.length ≤ i) :
     signatureHashWitnessV0 sc tx i (ht : Int) amount = .error indexError := by
-  have hp := v0HashPrevouts_eq tx ht hwf
-  have hs := v0HashSequence_eq tx ht hwf
-  have ho := v0HashOutputs_eq tx i ht hwf
+  have hp := v0HashPrevouts_eq tx ht (htRel_cast ht) hwf
+  have hs := v0HashSequence_eq tx ht (htRel_cast ht) hwf
+  have ho := v0HashOutputs_eq tx i ht (htRel_cast ht) hwf
   obtain ⟨hv1, hv2, _⟩ := hwf
   have hver : Model.Wire.packI 4 tx.nVersion = .ok (leBytesInt 4 tx.nVersion) :=
     packI_ok (by simpa using hv1) (by simpa using hv2)
